@@ -192,6 +192,23 @@ Proof.
     pose proof (rel_cnt _ _ R) as Cnt. cbn [length pred] in Cnt. cbn [length]. lia.
 Qed.
 
+Lemma aspa_query_ok_model h iss own c : Rel h iss -> iss <> [] -> keep h < H31 ->
+  N.of_nat (length iss) <= M32 -> c < M32 ->
+  aspa_query_ok iss c (model_aspa_answer h own c) = true.
+Proof.
+  intros R NE K L Hc. pose proof (rel_inv _ _ R) as HI. set (w := rev (firstn (S (length (deltas h))) iss)) in *.
+  destruct iss as [|[n cur] t]; [congruence|]. destruct (Rel_head _ _ _ _ R) as [Es Ec].
+  assert (w <> []) as Hw. { unfold w. cbn [firstn rev]. destruct (rev (firstn (length (deltas h)) t)); discriminate. }
+  unfold model_aspa_answer, diff. destruct own; [|reflexivity].
+  destruct (delta_since h c) as [d|] eqn:DS; [|reflexivity].
+  destruct (exact_or_refused h w c d HI Hw K Hc DS) as (g & cur' & HIn & Ecur & Pa).
+  rewrite Ec in Ecur. assert (cur' = cur) as Ecc by congruence. rewrite Ecc in Pa. clear Ecur Ecc cur'.
+  assert (In (c, g) ((n, cur) :: t)) as I2. { unfold w in HIn. apply in_rev in HIn. apply (In_firstn _ _ _ HIn). }
+  unfold aspa_query_ok. rewrite (find_issued_In _ c g (rel_wf _ _ R) L I2).
+  rewrite wapply_wire. apply (f_equal aspas) in Pa. cbn [papply aspas] in Pa. rewrite Pa.
+  destruct (kl_eqb_spec nlist_eqb nlist_eqb_spec (aspas cur) (aspas cur)); [reflexivity|congruence].
+Qed.
+
 (* ---- updates (C14 part of the oracle) ---- *)
 Lemma updates_ok_model k h iss us : Rel h iss -> keep h = k -> Forall snap_sorted us ->
   updates_ok k iss us (snd (model_updates h us)) = true /\
@@ -234,11 +251,12 @@ Definition model_case (c : case) : case :=
   {| c_keep := c_keep c; c_init := c_init c; c_updates := c_updates c;
      i_updates := obs; i_ready0 := false; i_ready := is_active h; i_serial := serial h;
      i_full := match current h with Some g => g | None => {| origins := []; rkeys := []; aspas := [] |} end;
-     i_answers := map (fun q => let '(own, s, _) := q in (own, s, model_answer h own s)) (i_answers c) |}.
+     i_answers := map (fun q => let '(own, s, _) := q in (own, s, model_answer h own s)) (i_answers c);
+     i_aspa_answers := map (fun q => let '(own, s, _) := q in (own, s, model_aspa_answer h own s)) (i_aspa_answers c) |}.
 
 Lemma Rel_start c : inputs_ok c = true -> Rel (model_start c) (start_issued c) /\ keep (model_start c) = c_keep c.
 Proof.
-  unfold inputs_ok, model_start, start_issued. intros H. apply andb_true_iff in H as [H _]. apply andb_true_iff in H as [_ H].
+  unfold inputs_ok, model_start, start_issued. intros H. apply andb_true_iff in H as [H _]. apply andb_true_iff in H as [H _]. apply andb_true_iff in H as [_ H].
   destruct (c_init c) as [[[s0 a] b]|]; [|split; [apply Rel_init|reflexivity]].
   apply andb_true_iff in H as [H L]. apply andb_true_iff in H as [H D]. apply andb_true_iff in H as [Sa Sb].
   apply snap_sortedb_spec in Sa, Sb. apply N.ltb_lt in L. apply negb_true_iff in D.
@@ -269,12 +287,12 @@ Theorem model_satisfies_spec c : inputs_ok c = true -> c_keep c < H31 ->
 Proof.
   intros IO K L. destruct (Rel_start c IO) as [R0 K0].
   assert (Forall snap_sorted (c_updates c)) as F.
-  { unfold inputs_ok in IO. apply andb_true_iff in IO as [IO _]. apply andb_true_iff in IO as [IO _].
+  { unfold inputs_ok in IO. apply andb_true_iff in IO as [IO _]. apply andb_true_iff in IO as [IO _]. apply andb_true_iff in IO as [IO _].
     apply Forall_forall. intros x Hx. apply snap_sortedb_spec. exact (proj1 (forallb_forall _ _) IO x Hx). }
   destruct (updates_ok_model (c_keep c) _ _ (c_updates c) R0 K0 F) as (O & RF & KF).
   unfold model_case. destruct (model_updates (model_start c) (c_updates c)) as [h obs] eqn:M. cbn [fst snd] in *.
   unfold spec_okb, final_issued, start_issued in *.
-  cbn [c_keep c_init c_updates i_updates i_ready0 i_ready i_serial i_full i_answers] in *.
+  cbn [c_keep c_init c_updates i_updates i_ready0 i_ready i_serial i_full i_answers i_aspa_answers] in *.
   rewrite O. cbn [negb andb].
   remember (fold_left spec_update (c_updates c)
               match c_init c with Some (s0, a, b) => [(sadd s0 1, b); (s0, a)] | None => [] end) as iss eqn:EI.
@@ -282,10 +300,16 @@ Proof.
   - destruct (Rel_nil _ RF) as [C D]. unfold is_active, serial. rewrite C, D. reflexivity.
   - destruct (Rel_head _ _ _ _ RF) as [Es Ec]. unfold is_active. rewrite Ec, Es. cbn [Bool.eqb spec_serial andb].
     rewrite N.eqb_refl. destruct (snap_eqb_spec cur cur); [|congruence]. cbn [andb].
-    apply forallb_forall. intros [[own s] a] Hq. apply in_map_iff in Hq as [[[own' s'] a'] [E Hq]].
-    inversion E; subst. clear E.
-    assert (s < M32) as Ls.
-    { unfold inputs_ok in IO. apply andb_true_iff in IO as [_ IO]. pose proof (proj1 (forallb_forall _ _) IO _ Hq) as Q.
-      cbn in Q. apply N.ltb_lt. exact Q. }
-    rewrite <- KF. apply query_ok_model; [exact RF|discriminate|rewrite KF; exact K|exact L|exact Ls].
+    unfold inputs_ok in IO. apply andb_true_iff in IO as [IO IOa]. apply andb_true_iff in IO as [_ IO].
+    apply andb_true_iff; split.
+    + apply forallb_forall. intros [[own s] a] Hq. apply in_map_iff in Hq as [[[own' s'] a'] [E Hq]].
+      inversion E; subst. clear E.
+      assert (s < M32) as Ls.
+      { pose proof (proj1 (forallb_forall _ _) IO _ Hq) as Q. cbn in Q. apply N.ltb_lt. exact Q. }
+      rewrite <- KF. apply query_ok_model; [exact RF|discriminate|rewrite KF; exact K|exact L|exact Ls].
+    + apply forallb_forall. intros [[own s] a] Hq. apply in_map_iff in Hq as [[[own' s'] a'] [E Hq]].
+      inversion E; subst. clear E.
+      assert (s < M32) as Ls.
+      { pose proof (proj1 (forallb_forall _ _) IOa _ Hq) as Q. cbn in Q. apply N.ltb_lt. exact Q. }
+      apply (aspa_query_ok_model h _ own s RF ltac:(discriminate) ltac:(rewrite KF; exact K) L Ls).
 Qed.
